@@ -209,11 +209,10 @@ func c02RunBatch(m *vk.M, b int, racing bool) {
 	})
 	worker("upgrade", func(r *rand.Rand) {
 		// websocket upgrade requests bypass the timeout handler: still the handler's response
-		rt := e.routes["gauge"][1]
-		if racing {
-			rt = e.routes["conns"][0] // gauge routes are busy in the racing flavour; conns route is clean too
+		if racing { // the gauge routes are busy in the racing flavour
 			return
 		}
+		rt := e.routes["gauge"][1]
 		for k := 0; k < 4; k++ {
 			if !c02ScFastOpt(c, e, do, rt, c02GenFast(r, false), "upgrade", c02ReqOpt{upgrade: true}) {
 				return
